@@ -25,7 +25,7 @@ from ..fl import dec, enc
 SHAPES_QUICK = [(2, 0), (2, 2), (1, 3), (2, 1)]
 SHAPES_THOROUGH = [(2, 0), (2, 2), (1, 3), (3, 2), (2, 1), (3, 0)]
 STARTS = ["rest", "leaf", "object", "shared", "debug"]
-MUTS = ["pos_inplace", "pos_rebind", "vel_set", "vel_none", "ts"]
+MUTS = ["pos_inplace", "pos_rebind", "vel_set", "vel_none", "ts", "vel_zero"]
 
 
 def ids_of(shape):
@@ -187,6 +187,14 @@ class World:
                 else:
                     u.velocity[0] = 2.0
                     snap[op[2]] = (pos, [2.0, vel[1]], ts)
+            elif m == "vel_zero":
+                # a velocity that is exactly zero in every direction (a composite object whose point masses move with
+                # +v and -v) is still a velocity with a time stamp: it must be read back as committed
+                u.velocity = [0.0, -0.0]
+                if u.time_stamp is None:
+                    u.time_stamp = Time(0.0, 0.25)
+                    ts = (0.0, 0.25)
+                snap[op[2]] = (pos, [0.0, -0.0], ts)
             elif m == "vel_none":
                 u.velocity = None
                 u.time_stamp = None
